@@ -690,6 +690,7 @@ func keysOfB(m map[string]bool) []string {
 	return ks
 }
 
+var reLayersOnlyLine = regexp.MustCompile(`^\s*(@layer [^{};]+;|@layer [^{};]*\{|@media [^{};]*\{|@supports [^{};]*\{|\})$`)
 var reLinkerTail = regexp.MustCompile(`^(var export_\w+ = .*;|[\w$]+\(\);)$`)
 
 func checkSegments(rc *RunCtx, rec *BuildRec, mf *Metafile, metaOut map[string]MetaOutput, outBytes map[string]string, viol func(class, key, f string, a ...interface{}) *Violation) *Violation {
@@ -768,6 +769,23 @@ func checkSegments(rc *RunCtx, rec *BuildRec, mf *Metafile, metaOut map[string]M
 			seg := segEnd - h.end
 			got := mo.Inputs[h.key].BytesInOutput
 			rc.Probe("segment_checked")
+			if seg > got && isCSS && got >= 0 && (got == 0 || c[h.end+got-1] == '\n') {
+				// layers-only entries (a sheet that is imported again later keeps only its
+				// @layer statement at the earlier position; adjacent ones are merged; import
+				// conditions wrap them in @layer/@media/@supports blocks) are printed without a
+				// path comment: such lines after the input's own bytes belong to other inputs
+				only := true
+				for _, line := range strings.Split(strings.TrimSuffix(c[h.end+got:segEnd], "\n"), "\n") {
+					if !reLayersOnlyLine.MatchString(line) {
+						only = false
+						break
+					}
+				}
+				if only {
+					seg = got
+					rc.Probe("css_segment_layers_only_entries_skipped")
+				}
+			}
 			if seg != got && i+1 == len(hits) {
 				// after the last module of an entry point the linker may emit statements of its
 				// own (a call of the module's lazy initialiser, re-export temporaries) before the
@@ -794,7 +812,7 @@ func checkSegments(rc *RunCtx, rec *BuildRec, mf *Metafile, metaOut map[string]M
 					rc.Probe(fmt.Sprintf("segment_delta_%d", seg-got))
 					continue
 				}
-				return viol("bytes-in-output-inexact", "", "output %s: the code of %s between its path comment and the next module's comment is %d bytes, the metafile attributes %d bytes to it", p, h.key, seg, got)
+				return viol("bytes-in-output-inexact", "", "output %s: the code of %s between its path comment and the next module's comment is %d bytes, the metafile attributes %d bytes to it; segment: %q", p, h.key, seg, got, trunc(c[h.end:segEnd], 300))
 			}
 		}
 	}
